@@ -834,10 +834,16 @@ fn position_checks(text: &str, ans: &Answers) -> Vec<(String, String, String)> {
 // Evaluation of one history on the real server
 // ---------------------------------------------------------------------------------------------
 
+/// upper bound of cached fresh answers (≈ 1.2 GB); beyond it a fresh document is re-observed
+const FRESH_CACHE_MAX: usize = 20_000;
+
 #[derive(Default)]
 struct Shared {
     /// answers of a freshly opened document, per text (document B); value = answers
     fresh: Mutex<HashMap<String, Arc<Answers>>>,
+    /// hashes of all texts whose fresh answers were ever computed (the cache above is bounded:
+    /// one entry is ~60 KB and an unbounded cache reached 9.6 GB in the thorough tier)
+    fresh_seen: Mutex<std::collections::HashSet<u64>>,
     /// memo of counterfactual replays (blame analysis)
     diverge_memo: Mutex<HashMap<String, bool>>,
     histories_compared: AtomicU64,
@@ -918,7 +924,13 @@ fn fresh_answers(server: &mut Server, sh: &Shared, text: &str, viol: &mut Vec<Vi
     }
     let b = Arc::new(observe_fresh(server, text)?);
     sh.fresh_opens.fetch_add(1, Ordering::Relaxed);
-    let first = sh.fresh.lock().unwrap().insert(text.to_string(), Arc::clone(&b)).is_none();
+    let first = sh.fresh_seen.lock().unwrap().insert(crate::engines::c12::hash64(text));
+    {
+        let mut cache = sh.fresh.lock().unwrap();
+        if cache.len() < FRESH_CACHE_MAX {
+            cache.insert(text.to_string(), Arc::clone(&b));
+        }
+    }
     if first {
         sh.position_texts.fetch_add(1, Ordering::Relaxed);
         let ntok = b.r[1].get("data").and_then(Value::as_array).map(|d| d.len() / 5).unwrap_or(0);
